@@ -69,6 +69,34 @@ func TestModelsAgainstStdlib(t *testing.T) {
 				t.Fatalf("Join(%q,%q)", s, sep)
 			}
 		}
+		for _, sep := range []string{" ", ":", "a:", "."} {
+			b1, a1, f1 := VerifModelCut(s, sep)
+			b2, a2, f2 := strings.Cut(s, sep)
+			if b1 != b2 || a1 != a2 || f1 != f2 {
+				t.Fatalf("Cut(%q,%q)", s, sep)
+			}
+			p1, pf1 := VerifModelCutPrefix(s, sep)
+			p2, pf2 := strings.CutPrefix(s, sep)
+			q1, qf1 := VerifModelCutSuffix(s, sep)
+			q2, qf2 := strings.CutSuffix(s, sep)
+			if p1 != p2 || pf1 != pf2 || q1 != q2 || qf1 != qf2 {
+				t.Fatalf("CutPrefix/Suffix(%q,%q)", s, sep)
+			}
+			if VerifModelLastIndex(s, sep) != strings.LastIndex(s, sep) || VerifModelCount(s, sep) != strings.Count(s, sep) {
+				t.Fatalf("LastIndex/Count(%q,%q)", s, sep)
+			}
+			if VerifModelReplaceAll(s, sep, "xy") != strings.ReplaceAll(s, sep, "xy") {
+				t.Fatalf("ReplaceAll(%q,%q)", s, sep)
+			}
+		}
+		for _, set := range []string{" ", " \t", "a:"} {
+			if VerifModelTrimLeft(s, set) != strings.TrimLeft(s, set) || VerifModelTrimRight(s, set) != strings.TrimRight(s, set) || VerifModelTrim(s, set) != strings.Trim(s, set) {
+				t.Fatalf("Trim*(%q,%q)", s, set)
+			}
+		}
+		if VerifModelIndexByte(s, ':') != strings.IndexByte(s, ':') || VerifModelToLower(s) != strings.ToLower(s) || VerifModelToUpper(s) != strings.ToUpper(s) {
+			t.Fatalf("IndexByte/ToLower/ToUpper(%q)", s)
+		}
 		if VerifModelContainsRune(s, '.') != strings.ContainsRune(s, '.') {
 			t.Fatalf("ContainsRune(%q)", s)
 		}
